@@ -23,6 +23,7 @@ func init() {
 		"pkg/controllers/state",
 		"pkg/scheduling",
 		"pkg/apis/v1",
+		"pkg/utils/pod",
 	}, func(g *gen) {
 		const prov = "pkg/controllers/provisioning"
 		const sched = "pkg/controllers/provisioning/scheduling"
@@ -58,6 +59,21 @@ func init() {
 		g.callSeq(c04Group, "pkg/scheduling", "IsKnownEphemeralTaint", "isKnownEphemeralTaintCalls", []string{"MatchTaint", "HasPrefix"})
 		g.strConst(c04Group, "pkg/apis/v1", "NodeRegisteredLabelKey", "nodeRegisteredLabelKey")
 		g.strConst(c04Group, "pkg/apis/v1", "NodeInitializedLabelKey", "nodeInitializedLabelKey")
+		// "what is already assigned there": how cluster state charges and releases the pods bound to a node
+		g.c04IfConds(state, "Cluster.UpdatePod", "updatePodConds")
+		g.callSeq(c04Group, state, "Cluster.UpdatePod", "updatePodCalls", []string{"IsTerminal", "IsTerminating", "updateNodeUsageFromPodCompletion", "updateNodeUsageFromPod"})
+		g.callSeq(c04Group, state, "Cluster.DeletePod", "deletePodCalls", []string{"updateNodeUsageFromPodCompletion", "updateNodeUsageFromPod"})
+		g.callSeq(c04Group, state, "Cluster.newStateFromNode", "newStateFromNodeCalls", []string{"NewNode", "populateResourceRequests"})
+		g.c04IfConds(state, "Cluster.populateResourceRequests", "populateResourceRequestsConds")
+		g.callSeq(c04Group, state, "Cluster.populateResourceRequests", "populateResourceRequestsCalls", []string{"List", "IsTerminal", "IsTerminating", "IsActive", "updateForPod", "cleanupOldBindings"})
+		g.c04IfConds(state, "Cluster.updateNodeUsageFromPod", "updateNodeUsageFromPodConds")
+		g.callSeq(c04Group, state, "Cluster.updateNodeUsageFromPod", "updateNodeUsageFromPodCalls", []string{"updateNodeUsageFromPodCompletion", "updateForPod", "cleanupOldBindings"})
+		g.c04IfConds(state, "Cluster.updateNodeUsageFromPodCompletion", "podCompletionConds")
+		g.callSeq(c04Group, state, "Cluster.updateNodeUsageFromPodCompletion", "podCompletionCalls", []string{"delete", "cleanupForPod"})
+		g.c04IfConds(state, "Cluster.cleanupOldBindings", "cleanupOldBindingsConds")
+		g.callSeq(c04Group, state, "StateNode.cleanupForPod", "cleanupForPodCalls", []string{"DeletePod", "delete"})
+		g.c04Returns("pkg/utils/pod", "IsTerminal", "isTerminalReturns")
+		g.c04Returns("pkg/utils/pod", "IsTerminating", "isTerminatingReturns")
 	})
 }
 
